@@ -319,6 +319,8 @@ class OptimisticRules(WordLockRules):
                         tgt, val, line = e['member'], e['value'], e.get('line')
                     elif e['kind'] == 'assign' and e['path'][0] == 'field' and e['path'][2] in (self.old_f, self.new_f):
                         tgt, val, line = e['path'][2], e['value'], e.get('line')
+                        if isinstance(e['path'][1], tuple) and e['path'][1][0] == 'addr' and e['path'][1][1][0] == 'var':
+                            continue      # a local guard object of the function itself (move-and-swap): gone when the function returns
                         if e['path'][1] != S('this'):
                             self.sink.bad('C09.FLOW', '%s writes %s of another guard' % (short(f['name']), tgt), '%s:%s' % (f['file'], line), show(e['path']))
                             continue
